@@ -2,9 +2,11 @@
 # Offline, from files on disk only: pre-build the harness and the hooked CLI so that the
 # first check is not charged for dependency compilation.
 set -u
-cd /verif
+V="$(cd "$(dirname "${BASH_SOURCE[0]}")" && pwd)"
+REPO="${PV_REPO:-/repo}"
+cd "$V"
 export CARGO_NET_OFFLINE=true
 mkdir -p .build/logs evidence replays
-( cd harness && CARGO_TARGET_DIR=/verif/.build/rel cargo build --release --offline ) 2>&1 | tail -3
-( cd /repo && RUSTFLAGS="--cfg packing_verif" cargo build --release --offline --bin packing --target-dir /verif/.build/cli ) 2>&1 | tail -3
+( cd harness && CARGO_TARGET_DIR="$V/.build/rel" cargo build --release --offline ) 2>&1 | tail -3
+( cd "$REPO" && RUSTFLAGS="--cfg packing_verif" cargo build --release --offline --bin packing --target-dir "$V/.build/cli" ) 2>&1 | tail -3
 exit 0
